@@ -232,7 +232,8 @@ func checkC04Positions(c *Ctx) {
 		"thrown-type":     "抛出§：“x”！\n",
 		"handler-type":    "输出 1 / 0\n\n拦截§：\n\t输出 2\n",
 	}
-	bad := []string{"5x", "1e+", "3x7", "12abc", "0x10", "1.2.3", "1e5e", "2*^", "7%4", "9甲"}
+	// (number-like non-numbers, then proper numbers, then both with a sign: none of them is a name)
+	bad := []string{"5x", "1e+", "3x7", "12abc", "0x10", "1.2.3", "1e5e", "2*^", "7%4", "9甲", "5", "12.5", "1e+5", "-5", "+45.78", "-12.8*10^15", "-5kg", "+3.", "-1e5", "+5x"}
 	good := []string{"甲", "x5", "名称"}
 	type cs struct {
 		pos, id, src string
@@ -294,7 +295,7 @@ func checkC04Positions(c *Ctx) {
 		c.Count("name_positions_checked", 1)
 		c.Nontrivial(fmt.Sprintf("position|%s|%s|%s", k.pos, k.id, resp.Kind))
 		if k.bad && resp.Kind != "error" {
-			c.Violation("positions:"+k.pos+":"+k.id, fmt.Sprintf("%q starts like a number but is not one, yet it was accepted as a name (%s): outcome %s %s\nprogram:\n%s", k.id, k.pos, resp.Kind, resp.Outcome(), k.src), map[string]interface{}{"req": req})
+			c.Violation("positions:"+k.pos+":"+k.id, fmt.Sprintf("%q is a number or starts like one, yet it was accepted as a name (%s): outcome %s %s\nprogram:\n%s", k.id, k.pos, resp.Kind, resp.Outcome(), k.src), map[string]interface{}{"req": req})
 		}
 		if !k.bad && resp.Kind != "value" && k.pos != "thrown-type" && k.pos != "handler-type" && k.pos != "builtin-method" && k.pos != "assign" && !strings.HasPrefix(k.pos, "import-item") {
 			c.Violation("positions-control:"+k.pos+":"+k.id, fmt.Sprintf("control: the proper name %q in position %s must work, outcome %s %v\nprogram:\n%s", k.id, k.pos, resp.Kind, resp.Err, k.src), map[string]interface{}{"req": req})
